@@ -17,6 +17,9 @@ import (
 	"github.com/ipld/go-ipld-prime/traversal"
 	"github.com/multiformats/go-multihash"
 
+	"github.com/ipfs/go-unixfsnode"
+	"github.com/ipld/go-ipld-prime/node/basicnode"
+	sb "github.com/ipld/go-ipld-prime/traversal/selector/builder"
 	"verifharness/mon"
 	"verifharness/oracle"
 	"verifharness/store"
@@ -371,6 +374,53 @@ func checkFileFaults(c *mon.Case, f *fileFixture) {
 				}
 			}
 		}
+	}
+	// (7) a byte range of the file consumed by a traversal (range matcher + BytesConsumingMatcher) while a
+	// block inside the range is unavailable: the walk reports the load error
+	if exact && len(spans) >= 3 {
+		tries := 0
+		for _, sp := range spans {
+			if !sp.Leaf || sp.Depth == 0 || sp.End <= sp.Start || tries >= 8 {
+				continue
+			}
+			tries++
+			a, b := sp.Start, sp.End
+			if a > 0 && tries%2 == 0 {
+				a--
+			}
+			if b < int64(len(f.Content)) && tries%3 == 0 {
+				b++
+			}
+			for _, missing := range []bool{false, true} {
+				st.ClearFaults()
+				if missing {
+					st.Absent = map[string]bool{sp.Cid.KeyString(): true}
+					st.AbsentErr = store.ErrInjected
+				}
+				st.ResetLog()
+				var werr error
+				c.Guard("range matcher + BytesConsumingMatcher", func() {
+					ssb := sb.NewSelectorSpecBuilder(basicnode.Prototype.Any)
+					sel, e := ssb.ExploreInterpretAs("unixfs", ssb.MatcherSubset(a, b)).Selector()
+					if e != nil {
+						werr = fmt.Errorf("harness: %w", e)
+						return
+					}
+					werr = progressFor(ls).WalkMatching(raw, sel, unixfsnode.BytesConsumingMatcher)
+				})
+				c.Count("range_consuming_walks", 1)
+				loaded := uniq(st.ReadCids())
+				switch {
+				case !missing && (werr != nil || !loaded[sp.Cid.String()]):
+					c.Violation("C12|file|range-consume", "%s: consuming bytes [%d,%d) by a traversal: err %v, block of that range loaded: %v", f.Name, a, b, werr, loaded[sp.Cid.String()])
+				case missing && werr == nil:
+					c.Violation("C12|file|no-error", "%s: consuming bytes [%d,%d) by a traversal with the block at [%d,%d) unavailable finished without an error (blocks loaded: %d)", f.Name, a, b, sp.Start, sp.End, len(loaded))
+				case missing && !isInjected(werr, 1):
+					c.Violation("C12|file|other-error", "%s: range-consuming walk: error %T %v is not the injected load error", f.Name, werr, werr)
+				}
+			}
+		}
+		st.ClearFaults()
 	}
 	// (6) the length of ONE node is asked for (an end-relative seek) while a load fails once; a second
 	// reader obtained from the same node after the outage must see the true length
